@@ -128,9 +128,9 @@ def programs(tier, seed):
     progs += gen.random_programs(30, seed, gen.PURE_FEATURES, 3, 4, tracer=False, prefix='prnd')
   else:
     sk3 = [p for p in gen.skeletons(3, pure=True) if p.name.count('>') == 2]
-    progs = sk + rnd.sample(sk3, 400)
-    progs += gen.random_programs(400, seed, gen.PURE_FEATURES, 3, 5, tracer=False, prefix='prnd')
-    progs += gen.random_programs(100, seed + 1, gen.PURE_FEATURES, 4, 6, tracer=False, prefix='prnd')
+    progs = sk + rnd.sample(sk3, 200)
+    progs += gen.random_programs(250, seed, gen.PURE_FEATURES, 3, 5, tracer=False, prefix='prnd')
+    progs += gen.random_programs(60, seed + 1, gen.PURE_FEATURES, 4, 6, tracer=False, prefix='prnd')
   progs += [gen.Prog(n, s, {'extra'}) for n, s in EXTRA]
   return progs
 
